@@ -402,6 +402,77 @@ func (o *WireOracles) Finish() {
 	}
 	o.res.ProbeN("tap-packets", int64(len(o.w.Tap.All)))
 	o.checkEndpointView()
+	o.checkGhostConnections()
+}
+
+// checkGhostConnections (C16: packets are routed to a connection for precisely its issued and not yet expired IDs).
+// The connection ID a client chose for its first Initial packets stays routed to the server's connection until three
+// probe timeouts after the handshake has completed: a copy of such an Initial that arrives earlier (a duplicate, a
+// delayed or replayed datagram) belongs to that connection and must not make the server set up a second one.
+// The observer sees a second server connection by its different source connection ID (a "shadow"); the bound is a
+// lower bound of the real deadline that does not depend on the server's RTT statistics (see below).
+func (o *WireOracles) checkGhostConnections() {
+	if o.n == nil || o.n.QLog[1] == nil {
+		return
+	}
+	for _, c := range o.w.Tap.Conns {
+		if c.Shadow || len(c.shadows) == 0 || c.Retried {
+			continue
+		}
+		var done, closed int64 = -1, -1
+		for _, p := range c.Packets {
+			for i := range p.Frames {
+				switch p.Frames[i].Name {
+				case "HANDSHAKE_DONE":
+					if p.Dir == 1 && done < 0 {
+						done = p.SentNS
+					}
+				case "CONNECTION_CLOSE", "CONNECTION_CLOSE_APP":
+					if closed < 0 {
+						closed = p.SentNS
+					}
+				}
+			}
+		}
+		if done < 0 {
+			continue
+		}
+		// A lower bound of the server's probe timeout that needs no knowledge of its RTT statistics: no RTT sample is
+		// smaller than two one-way latencies of this network, and the PTO is the smoothed RTT plus at least a millisecond
+		minPTO := 2*time.Duration(o.w.Net.LatencyUS)*time.Microsecond + time.Millisecond
+		if len(o.w.Tap.Conns) > 2+len(c.shadows) {
+			continue // several dials: their copies of first Initials are not told apart here
+		}
+		for _, sh := range c.shadows {
+			var first int64 = -1
+			for _, p := range sh.Packets {
+				if p.Dir == 1 {
+					first = p.SentNS
+					break
+				}
+			}
+			if first <= done || (closed >= 0 && first >= closed) {
+				continue
+			}
+			// (a connection can also end in silence - idle timeout, destroyed with its transport - and then rightly frees
+			// its IDs: only a first connection that demonstrably still sends afterwards counts)
+			alive := false
+			for _, p := range c.Packets {
+				if p.Dir == 1 && p.Opened && p.SentNS > first && p.Type == Tap1RTT {
+					alive = true
+					break
+				}
+			}
+			if !alive {
+				continue
+			}
+			if first < done+int64(3*minPTO)-int64(time.Millisecond) {
+				o.report("C16", "a copy of the client's first Initial made the server set up a second connection although the handshake of the first had completed less than three probe timeouts before", "second connection (source ID %x) answers at %v; HANDSHAKE_DONE sent at %v, lower bound of the server's PTO %v", sh.ServerSCID, time.Duration(first), time.Duration(done), minPTO)
+			} else {
+				o.res.Probe("second-server-connection-after-the-grace-period")
+			}
+		}
+	}
 }
 
 // checkEndpointView compares what the endpoints themselves logged (qlog) with the simulator's ground truth.
